@@ -13,7 +13,7 @@ PROP = 'C01'
 META = dict(
     explanation='Differential, real code on both sides: for a pipeline P of dual-mode operators and N symbolic (group, value) pairs, the per-group outputs of with_memory_store([group_by(key, P)]) (bucketed by a tap at the tail of the inner pipeline) '
                 'must equal, items and order, what rx.from_(values of that group).pipe(*P) emits on a plain observable. The group of each item is a solver variable (concretised by a comparison cascade), so every interleaving of <= G groups is a path. '
-                'A second form compares with_memory_store(P) on the root key with the plain run. Programs: every dual-mode catalogue operator alone, seeded type-correct compositions to depth 3, tee_map with the three joins over depth-1/2 branches. '
+                'A second form compares with_memory_store(P) on the root key with the plain run; a third takes the keys from split / roll (successive lifetimes on one re-used key slot) and compares every lifetime with the plain run on its items. Programs: every dual-mode catalogue operator alone, seeded type-correct compositions to depth 3, tee_map with the three joins over depth-1/2 branches. '
                 'Float-valued operators (sum, mean, variance, stddev, formal.*) are run with z3 Real terms as items at native speed (z3x family): mux and plain output terms must be identical or provably equal.',
     bounds=dict(quick='N <= 3 items, G <= 2 groups, |v| <= 2^40; ~37 single operators, 30 seeded depth-2, 12 seeded depth-3, 9 tee_map programs; z3x: N <= 5, G <= 3',
                 thorough='N <= 4, G <= 3 (N <= 5 for branch-free pipelines); 300 seeded programs; z3x: N <= 7, G <= 3'),
@@ -60,6 +60,37 @@ def grouped(p):
                 return fail(pipeline=C.show(desc), items=items, group=k, group_items=vals, observed=got, expected=exp, stream_error=err)
         return True
     return mk('grouped', sig, pre, body)
+
+
+def lifetimes(p):
+    """keys produced by split / roll instead of group_by: successive lifetimes re-use one key slot; every lifetime's outputs must equal the plain run on that lifetime's items"""
+    desc, n, parent = p['desc'], p['n'], p['parent']
+    pre = ['-2**40 <= v%d <= 2**40' % i for i in range(n)]
+
+    def body(a):
+        items = list(a)
+        head, tail = [], []
+        inner = [D.tap(head)] + C.build(desc)[0] + [D.tap(tail)]
+        if parent == 'split':
+            pipe = [rs.data.split(C.PRED['tup2'], inner)]
+        elif parent == 'roll22':
+            pipe = [rs.data.roll(2, 2, inner)]
+        else:
+            pipe = [rs.data.roll(3, 3, inner)]
+        err = []
+        D.src(items).pipe(rs.state.with_memory_store(pipe)).subscribe(on_error=lambda e: err.append(type(e).__name__))
+        ins, ok1 = D.lifetimes(head)
+        outs, ok2 = D.lifetimes(tail)
+        if err or not ok1 or not ok2 or len(ins) != len(outs):
+            return fail(pipeline=C.show(desc), parent=parent, items=items, head=head, tail=tail, err=err)
+        for i, o in zip(ins, outs):
+            exp = _plain(i, desc)
+            if exp and exp[-1] == ('ERR', EMPTY_ERR):
+                continue
+            if o != exp:
+                return fail(pipeline=C.show(desc), parent=parent, items=items, lifetime_items=i, observed=o, expected=exp)
+        return True
+    return mk('lifetimes', [('v%d' % i, 'int') for i in range(n)], pre, body)
 
 
 def root(p):
@@ -214,7 +245,7 @@ class Floats(object):
         return dict(reproduced=diff is not None, detail=diff or {})
 
 
-FAMILIES = {'grouped': grouped, 'root': root, 'asserting': asserting, 'floats': Floats}
+FAMILIES = {'grouped': grouped, 'root': root, 'asserting': asserting, 'floats': Floats, 'lifetimes': lifetimes}
 
 
 def _tee_ok(desc, in_tee=False):
@@ -282,6 +313,13 @@ def obligations(tier, seed):
         obs.append(Ob(PROP, 'root', dict(desc=d, n=nr), budget=b, group='root', bound=dict(items=nr, pipeline=C.show(d))))
         if kind == 'leaf':
             obs.append(Ob(PROP, 'root', dict(desc=d, n=0), budget=b, group='root', bound=dict(items=0, pipeline=C.show(d))))
+        if kind in ('tee', 'seeded2') or (kind == 'leaf' and d[0][0] in C.STATEFUL):
+            for parent, nn in ((('split', 3), ('roll22', 4)) if q else (('split', 4), ('roll22', 4), ('roll33', 6))):
+                if q and (kind == 'seeded2' or (kind == 'leaf' and parent != 'split')):
+                    continue
+                while nn > 2 and br ** nn > (40 if q else 300):
+                    nn -= 1
+                obs.append(Ob(PROP, 'lifetimes', dict(desc=d, n=nn, parent=parent), budget=b, group='lifetimes:' + parent, bound=dict(items=nn, parent=parent, pipeline=C.show(d))))
     for op in ('assert_', 'assert_1'):
         for n in ((2, 3) if q else (2, 3, 4)):
             obs.append(Ob(PROP, 'asserting', dict(op=op, n=n), budget=b, bound=dict(items=n, values='0..3')))
